@@ -324,6 +324,19 @@ def c03(backends=None, prop="C03"):
     chk.parts["reconstruct_events"] = c[5]; chk.parts["reconstruct_refused"] = c[6]
     _samples(chk, files, kinds=("Rec",))
     if prop == "C03":
+        # fragments rebuilt, and supplied destinations handed back, after the legacy-CRC switch changed inside the process
+        # (every byte against the serializer / the supplied fragment: TraceWire RecB events)
+        from .checks_wire import enc_cmd, wire_configs
+        rb = []
+        for ci, (be, k, m, hd) in enumerate(wire_configs(False)):
+            if be in backends or (BE_RS in backends and be == BE_RS):
+                for L in (1, 40 + ci):
+                    rb.append(enc_cmd(be, k, m, hd, 1 + ci % 2, L, _seed_of(chk, 6000 + ci + L), 1) + (" 1" if ci % 2 else " yes"))
+        for envv, nm in (({}, "a"), ({"LIBERASURECODE_WRITE_LEGACY_CRC": "1"}, "b")):
+            rbc = rb if nm == "a" else [c_.rsplit(" ", 1)[0] + " -" for c_ in rb]
+            fr, er, rr = run_sweeps("asan", rbc, prop + "-recb" + nm, env=envv)
+            vr = validate("TraceWire", fr, max_lines=400)
+            _collect(chk, vr, ["C03", "C10 reconstructed fragment", "fault"])
         _suite(chk, ["C13/C03", "C02 reconstruct", "fault"])
         _gcc_boundary(chk, prop, cmds, ["C03", "C02 reconstruct", "C02 wrote", "fault", "create failed", "encode failed"])
     return _finish_codes(chk,
@@ -472,7 +485,13 @@ def c04():
     # matrix / basis commands are split by k so that the work spreads over processes
     cmds.append("matrix 32 %d" % stride)
     cmds.append("rs_basis 32 %d %d" % (stride if thorough else 6, _seed_of(chk, 1)))
+    # the same basis encodes on instances created with another word size than 16 (the property fixes 16-bit words for
+    # every configuration; a refused configuration is fine) and on the production configuration
+    for w_ in (8, 32, 4, 64):
+        cmds.append("rs_basis 12 %d %d %d" % (3 if not thorough else 1, _seed_of(chk, 2), w_))
     files, events, restarts = run_sweeps("asan", cmds, "C04-asan", merge=False)
+    fg, eg, rg = run_sweeps("gcc", ["rs_basis 32 %d %d" % (9 if not thorough else 2, _seed_of(chk, 3))], "C04-gcc", merge=False)
+    files = files + fg
     v = validate("TraceRS", files, max_lines=400)
     _collect(chk, v, ["C04", "fault", "create failed", "encode failed"])
     r = _join(m1)
